@@ -55,7 +55,7 @@ fn ki5b_fixed_part() {
     if matches!(mode, Mode::Flags | Mode::Time | Mode::Os | Mode::ExLen | Mode::Extra | Mode::Name | Mode::Comment | Mode::HCrc) {
         let folded = used - bits_left / 8;
         if n_in >= 2 && flg & 2 != 0 && wrap & 4 != 0 {
-            assert!(ck_after == model_fold(ck0, &input[..folded]));
+            assert!(ck_after == crc32(ck0, &input[..folded]));
         } else {
             assert!(ck_after == ck0);
         }
@@ -225,7 +225,7 @@ fn string_field(mode_sel: bool) {
     core::mem::forget(state);
     if matches!(mode, Mode::Name | Mode::Comment | Mode::HCrc) {
         // every byte of the field (terminator included) is folded into the header CRC, nothing else
-        assert!(ck_after == if hcrc { model_fold(ck0, &input[..field_bytes]) } else { ck0 });
+        assert!(ck_after == if hcrc { crc32(ck0, &input[..field_bytes]) } else { ck0 });
     }
     if hcrc && z < n_in {
         // the header CRC follows: verdict against the (model) checksum, or waiting for its two bytes
@@ -233,7 +233,7 @@ fn string_field(mode_sel: bool) {
             assert!(rc == ReturnCode::Ok && matches!(mode, Mode::HCrc) && used == n_in && head.done == 0);
         } else {
             let given = u16::from_le_bytes([input[field_bytes], input[field_bytes + 1]]) as u32;
-            if given == model_fold(ck0, &input[..field_bytes]) & 0xffff {
+            if given == crc32(ck0, &input[..field_bytes]) & 0xffff {
                 assert!(rc == ReturnCode::Ok && matches!(mode, Mode::Type) && head.done == 1 && used == field_bytes + 2);
             } else {
                 assert!(rc == ReturnCode::DataError && matches!(mode, Mode::Bad) && head.done == 0);
